@@ -464,6 +464,41 @@ class GradeEngine:
             else:
                 res.unknown.append(f"{f.short}: statement `{norm1(s, 80)}`")
 
+    def _helper_call(self, e: ast.Call, f, env, loc, res, _depth=[0]) -> Optional[Grade]:
+        fn = e.func
+        name = fn.id if isinstance(fn, ast.Name) else fn.attr if isinstance(fn, ast.Attribute) and isinstance(fn.value, ast.Name) and fn.value.id in ("self", "cls") else None
+        if name is None or not name.startswith("_") or (name.startswith("__") and name.endswith("__")) or _depth[0] >= 2:
+            return None
+        g = None
+        if isinstance(fn, ast.Name):
+            g = f.module.functions.get(name)
+        elif getattr(f, "cls", None) is not None:
+            g = self.idx.find_method(f.cls, name)
+        if g is None:
+            return None
+        params = list(g.params)
+        if isinstance(fn, ast.Attribute) and params and params[0] in ("self", "cls"):
+            params = params[1:]
+        if any(isinstance(a, ast.Starred) for a in e.args) or any(k.arg is None for k in e.keywords) or len(e.args) > len(params):
+            return None
+        hloc: Dict[str, Grade] = {}
+        for p_, a in zip(params, e.args):
+            hloc[p_] = self.expr(a, f, env, loc, res)
+        for k in e.keywords:
+            hloc[k.arg] = self.expr(k.value, f, env, loc, res)
+        ret: List[Grade] = []
+        _depth[0] += 1
+        try:
+            self._block(g.node.body, g, env, hloc, res, ret)
+        finally:
+            _depth[0] -= 1
+        if not ret:
+            return TOP
+        out = ret[0]
+        for r in ret[1:]:
+            out = self._join(out, r, g, g.node, res, "return")
+        return out
+
     def expr(self, e: ast.AST, f, env, loc, res) -> Grade:
         if isinstance(e, ast.Constant):
             v = e.value
@@ -550,6 +585,10 @@ class GradeEngine:
                     return self.leaf(e, f.module, {}, {})
                 if isinstance(e.func.value, ast.Name) and e.func.value.id == "self" and e.func.attr.startswith("_J_H"):
                     return TOP
+            # private helper of the same class / module: interpret its body with the argument grades bound to its parameters
+            hg = self._helper_call(e, f, env, loc, res)
+            if hg is not None:
+                return hg
             # class instantiation inside array code: Velocity(data_K, …).matrix
             t = self.idx.resolve_expr(f.module, e.func)
             if isinstance(t, ClassInfo):
